@@ -2,7 +2,7 @@ from collections.abc import Sequence
 from dataclasses import dataclass
 
 from xdsl.context import Context
-from xdsl.dialects import builtin, scf
+from xdsl.dialects import arith, builtin, scf
 from xdsl.dialects.builtin import IndexType, MemRefType
 from xdsl.dialects.linalg import GenericOp
 from xdsl.dialects.memref import CopyOp
@@ -51,7 +51,17 @@ class ConstructPipeline(RewritePattern):
 
     @op_type_rewrite_pattern
     def match_and_rewrite(self, op: ForOp, rewriter: PatternRewriter):
-        # TODO: only apply for for loops with lb 0 and step 1
+        # only apply for for loops with lb 0 and step 1: the unrolled
+        # prologue and epilogue index the iterations as 0, 1, ... and ub - 1, ub - 2, ...
+        def is_constant(value: SSAValue, expected: int) -> bool:
+            return (
+                isinstance(value.owner, arith.ConstantOp)
+                and isinstance(value.owner.value, builtin.IntegerAttr)
+                and value.owner.value.value.data == expected
+            )
+
+        if not (is_constant(op.lb, 0) and is_constant(op.step, 1)):
+            return
 
         # no nested for loop allowed
         for operation in op.walk():
